@@ -17,7 +17,7 @@ def rdRawMat : Rd RawMat := do
   let idx1 ← rdVec; let idx2 ← rdVec; let vals ← rdVec
   return { fmt, nRows, nCols, bR, bC, nnz, sorted := s != 0, diagFirst := d != 0, idx1, idx2, vals }
 
-def fmtName : Nat → String | 0 => "COO" | 1 => "CSR" | 2 => "CSC" | _ => "?"
+def fmtName : Nat → String | 0 => "COO" | 1 => "CSR" | 2 => "CSC" | 4 => "BSR" | _ => "?"
 
 def RawMat.isBlock (m : RawMat) : Bool := m.bR != 1 || m.bC != 1
 
